@@ -15,6 +15,7 @@ import (
 	"runtime/debug"
 	"strings"
 	"sync"
+	"syscall"
 	"time"
 )
 
@@ -35,6 +36,10 @@ type wres struct {
 
 func workerMain() {
 	debug.SetMaxStack(256 << 20)
+	// a case that legitimately asks for an enormous allocation must fail fast
+	// (and is then classified as resource exhaustion, not as a violation)
+	lim := syscall.Rlimit{Cur: 6 << 30, Max: 6 << 30}
+	syscall.Setrlimit(syscall.RLIMIT_AS, &lim)
 	in := bufio.NewReaderSize(os.Stdin, 1<<20)
 	out := bufio.NewWriterSize(os.Stdout, 1<<20)
 	for {
@@ -82,6 +87,7 @@ const (
 	isoTimeout = "timeout" // the case did not return within the confirmation limit
 	isoPanic   = "panic"   // a panic escaped the op
 	isoFlaky   = "inconclusive"
+	isoOOM     = "oom" // the worker ran out of memory: resource exhaustion, never reported as a violation
 )
 
 type isoResult struct {
@@ -213,6 +219,9 @@ func (is *isolator) once(op string, c []byte, limit time.Duration) isoResult {
 			is.w.cmd.Wait()
 			detail := is.w.stderr.String()
 			is.w.dead = true
+			if strings.Contains(detail, "out of memory") || strings.Contains(detail, "cannot allocate memory") {
+				return isoResult{Status: isoOOM, Detail: firstLines(detail, 4)}
+			}
 			return isoResult{Status: isoCrash, Detail: firstLines(detail, 12)}
 		}
 		var r wres
